@@ -63,7 +63,8 @@ def run(rep, tier, args):
         vlib.run_harness(hb, ["stream", "--walks", wd + "/stream-walks.ndjson", "--out", wd + "/stream-b1.ndjson"])
         rep.extra["stream_edges"] = len(edges)
         rep.extra["stream_edge_walks"] = len(walks)
-        rep.extra["exhaustive"] = "stream automaton: every (state, call) pair"
+        rep.extra["exhaustive"] = True
+        rep.extra["exhaustive_scope"] = "stream automaton: every (state, call) pair"
         for w in walks:
             rep.count_case(w)
         rep.add_sample({"stream_edge_walk": walks[0][:6]})
